@@ -13,8 +13,8 @@ from mc.ref import ref2d, refann
 ID = "C06"
 LEVEL = "exploration"
 RULE = (
-    "three host structures built from the 1ehz acceptor stem (5 nucleotides in two chains; a single chain with a deleted residue so that gap "
-    "detection inserts '?'; a structure containing a non-nucleotide group) x ALL SEQUENCES of up to L entries from the entry alphabet {ordered "
+    "five host structures built from the 1ehz acceptor stem (5 nucleotides in two chains; a single chain with a deleted residue so that gap "
+    "detection inserts '?' - in the middle, right behind the first nucleotide, right before the last one; a structure containing a non-nucleotide group) x ALL SEQUENCES of up to L entries from the entry alphabet {ordered "
     "residue pairs over 4 nucleotides + 1 absent residue} x {cWW, tWW, cWH[, cHW]} x {no Saenger, table Saenger}, with and without gap detection; "
     "sequences (not sets) because row filling and conflict resolution are order sensitive - duplicates, reversed duplicates, multiplets of degree "
     "3 and dangling entries occur by construction. Oracle: BPSEQ numbering/letters/placeholders, symmetric matching, every BPSEQ pair a canonical "
@@ -46,7 +46,10 @@ def hosts():
     h2 = [_spec(d[0], "A"), _spec(d[1], "A"), _spec(d[2], "A"), _spec(d[4], "A"), _spec(d[5], "A")]
     lig = ("A", 50, None, "LIG", "?", [("C1", np.array([40.0, 40.0, 40.0])), ("O1", np.array([41.2, 40.0, 40.0])), ("N1", np.array([40.0, 41.3, 40.0]))])
     h3 = [_spec(d[0], "A"), _spec(d[1], "A"), lig, _spec(d[5], "A"), _spec(d[7], "B"), _spec(d[13], "B")]
-    return {"two-chains": h1, "gap": h2, "with-ligand": h3}
+    # the gap right behind the first nucleotide (residue 2 deleted) and right before the last one (residue 5 deleted)
+    h4 = [_spec(d[0], "A"), _spec(d[2], "A"), _spec(d[3], "A"), _spec(d[4], "A"), _spec(d[5], "A")]
+    h5 = [_spec(d[0], "A"), _spec(d[1], "A"), _spec(d[2], "A"), _spec(d[3], "A"), _spec(d[5], "A")]
+    return {"two-chains": h1, "gap": h2, "with-ligand": h3, "gap-after-first": h4, "gap-before-last": h5}
 
 
 _hosts = {}
@@ -128,7 +131,7 @@ def alphabet(hostname, tier):
 
 def BOUNDS(tier):
     q = tier == "quick"
-    return dict(hosts=3, gaps=[False, True], alphabet={h: len(alphabet(h, tier)) for h in hosts()}, length=2 if q else 3,
+    return dict(hosts=len(hosts()), gaps=[False, True], alphabet={h: len(alphabet(h, tier)) for h in hosts()}, length=2 if q else 3,
                 corpus_files=len(CORPUS_Q if q else CORPUS_T), length3="none" if q else "all triples whose entries touch at most 3 distinct residue pairs or repeat a class (multiplets, duplicates) - see cases()")
 
 
